@@ -44,7 +44,16 @@ def closed_fractional_durations():
             return False, n, {"input": s, "what": "string round trip %r -> value %s (was %s), text %r" % (s, _value(y), _value(x), str(y))}
         if abs(float(x) - float(_value(x))) > 1e-12:
             return False, n, {"input": s, "what": "float value %r, exact %s" % (float(x), _value(x))}
-    for x, y in itertools.product(grid[::3], grid[::4]):
+    # the finest values a file can hold: numerators and denominators up to the bound of 1024 itself ("1024th" notes)
+    for a_, b_ in ((1, 64), (1, 128), (3, 256), (1, 512), (1, 1024), (3, 1024), (1023, 1024), (1024, 1), (512, 3)):
+        n += 1
+        x = F(a_, b_)
+        s = str(x)
+        y = interpret_as_fractional(s)
+        if _value(x) != Fraction(a_, b_) or _value(y) != Fraction(a_, b_) or str(y) != s:
+            return False, n, {"input": "%d/%d" % (a_, b_), "what": "%d/%d built as %r (value %s), read back as %r (value %s)" % (a_, b_, s, _value(x), str(y), _value(y))}
+    fine = [(F(1, 512), F(1, 1024)), (F(3, 1024), F(1, 1024)), (F(1, 2), F(1, 1024)), (F(1, 256), F(1, 256)), (F(5, 1024), F(1, 512))]
+    for x, y in list(itertools.product(grid[::3], grid[::4])) + fine:
         n += 1
         vx, vy, sx, sy = _value(x), _value(y), str(x), str(y)
         z = x + y
